@@ -201,7 +201,7 @@ def check(tier):
     rep = Report(PROP, tier)
     c5 = corpus5()
     kmax = 4 if tier == "thorough" else 3
-    names5 = list(c5) if tier == "thorough" else list(c5)[:5]
+    names5 = list(c5)
     stacks = []
     for k in range(1, kmax + 1):
         pool = names5 if k < 4 else names5[:4]
